@@ -148,6 +148,13 @@ def program(cex: dict) -> str:
                 "    // GeneralSubtree { base [4] ... }: directoryName is a CHOICE, so [4] must be EXPLICIT: A4 len 30 len { RDNs }\n"
                 "    let pos = der.windows(2).position(|w| w[0] == 0xa4 && w[1] < 0x80).expect(\"directoryName not found\");\n"
                 "    assert_eq!(der[pos + 2], 0x30, \"directoryName [4] is not explicitly tagged: the Name SEQUENCE tag is missing\");\n")
+    if op == "eq":
+        body = ("    // equality of two names must mean equality of their enumerations: all pairs of names over 3 types / 2 values up to length 3\n"
+                "    let mut names: Vec<Vec<(u64, u64)>> = vec![vec![]];\n"
+                "    for len in 1..=3usize { let prev: Vec<_> = names.iter().filter(|n| n.len() == len - 1).cloned().collect();\n"
+                "        for n in prev { for t in 0..3u64 { if n.iter().any(|e| e.0 == t) { continue; } for v in 0..2u64 { let mut m = n.clone(); m.push((t, v)); names.push(m); } } } }\n"
+                "    for a in &names { for b in &names { let (da, db) = (build(a), build(b));\n"
+                "        assert_eq!(da == db, snapshot(&da) == snapshot(&db), \"== disagrees with equality of the enumerations for {:?} vs {:?}\", a, b); } }\n")
     if op in ("issuer-view", "crl-guard"):
         body = ISSUING
     if op == "sign-arm":
